@@ -136,9 +136,10 @@ impl Context for CommonContext {
         self.labels.borrow_mut().insert(name, value)
     }
 
+    /// Some(..) says that the name is in use already (by that alias, or by a symbol of another kind) and nothing was stored
     fn set_def(&self, name: String, value: Reg8) -> Option<Reg8> {
         if self.exist(&name) {
-            None
+            Some(self.get_def(&name).unwrap_or(value))
         } else {
             self.defs.borrow_mut().insert(name.to_lowercase(), value)
         }
